@@ -647,7 +647,7 @@ fn main() {
         + render_nontrivial;
     let evaluations = g.tmpl_calls + g.equiv_calls + g.canon_eq_pairs_distinct + triples_nonvacuous + 2 * n as u64;
     let rule = format!(
-        "Alphabet: leaves u8,bool,T,U,a::P,(),a::L<'static|'a|'_>,a::K<8>,fn(); unary &/&mut x {{'static,'a,'b,elided,'_}},(_,),[_],[_;1],[_;2],*const,*mut,a::Q<_>,a::M<'a,_>,fn(_),fn()->_,fn(x:_),unsafe extern \"C\" fn(_); binary (_,_),a::R<_,_>,fn(_)->_. \
+        "Alphabet: leaves u8,bool,T,U,a::P,(),a::L<'static|'a|'_>,a::K<8>,fn(); unary &/&mut x {{'static,'a,'b,elided,'_}},(_,),[_],[_;1],[_;2],*const,*mut,a::Q<_>,a::M<'a,_>,fn(_),fn()->_,fn(x:_),unsafe fn(_),extern \"C\" fn(_),unsafe extern \"C\" fn(_); binary (_,_),a::R<_,_>,fn(_)->_. \
 Bound: D1 = all terms of depth<=1; quick universe D2 = D1 + unary(D1) + binary(N1xN1), N1 = narrow terms (leaves u8,T,U,a::P; unary &,&mut,*mut,(_,),a::Q<_>) of depth<=1{}. \
 Pairs: every ordered pair of the quick universe is executed unfiltered{}. Triples: transitivity over ALL triples of the quick universe (evaluated as: for every related (a,b) and every c related to b, (a,c) must be related; unrelated prefixes are vacuous). \
 Oracle (real rustdoc_ir API vs engine reference): (1) t.is_a_template_for(c)=Some(b) and c without generic parameters => erase_lifetimes(t.bind_generic_type_parameters(b)) == erase_lifetimes(c) (mutability of references and raw pointers kept); (2) is_equivalent_to reflexive, symmetric, transitive; related => equal after erasing lifetimes and some bijective renaming of generic parameters (brute force over all bijections); canonicalize(a)==canonicalize(b) => related; (3) canonicalize idempotent; (4) syn::parse_str(render_type(t)) read by an independent syn reader (parenthesised type = inner type) == t. \
